@@ -455,7 +455,7 @@ pub fn run(args: &Args) -> i32 {
                 }
                 let gen = PredGen::new(
                     m,
-                    GenCfg { cols: all_cols(m), focus: vec![], max_depth: 3, hostile_literals: true, allow_colcmp: true },
+                    GenCfg { cols: all_cols(m), focus: vec![], max_depth: 3, hostile_literals: true, allow_colcmp: true, contains_cols: vec![] },
                 );
                 for qi in 0..queries_per_table {
                     if !report.time_left() {
